@@ -7,12 +7,12 @@ import (
 	"flag"
 	"fmt"
 	"net/http"
-	"net/http/httptest"
 	"net/url"
 	"sort"
 	"strings"
 	"sync"
 	"time"
+	"verifharness/internal/netx"
 
 	"github.com/ipni/go-libipni/dagsync/ipnisync"
 	"github.com/ipni/go-libipni/maurl"
@@ -355,7 +355,7 @@ func endToEnd(prefix string) string {
 		return "NewPublisher: " + err.Error()
 	}
 	defer pub.Close()
-	srv := httptest.NewServer(http.HandlerFunc(func(w http.ResponseWriter, r *http.Request) {
+	srv := netx.NewServer(http.HandlerFunc(func(w http.ResponseWriter, r *http.Request) {
 		mu.Lock()
 		paths = append(paths, r.URL.Path)
 		mu.Unlock()
